@@ -412,14 +412,22 @@ def rand_scalar(rng):
 
 
 def rand_escape(rng, size):
+    """Mostly escapes whose value fits an element of `size` bytes (the out-of-range ones are the known-finding class)."""
     r = rng.random()
+    fit = rng.random() < 0.85
     if r < 0.3:
         return ("s", rng.choice(sorted(SIMPLE)))
     if r < 0.6:
         nd = rng.randint(1, 3)
-        return ("o", "".join(rng.choice("01234567") for _ in range(nd)))
-    nd = rng.randint(1, 8)
-    return ("x", "".join(rng.choice("0123456789abcdefABCDEF") for _ in range(nd)))
+        ds = "".join(rng.choice("01234567") for _ in range(nd))
+        if nd == 3 and size == 1 and fit:
+            ds = rng.choice("0123") + ds[1:]
+        return ("o", ds)
+    nd = rng.randint(1, 2 * size) if fit else rng.randint(1, 8)
+    ds = "".join(rng.choice("0123456789abcdefABCDEF") for _ in range(nd))
+    if fit and rng.random() < 0.3:
+        ds = "0" * rng.randint(1, 3) + ds      # leading zeros do not change the value
+    return ("x", ds)
 
 
 def is_oct(c):
